@@ -93,12 +93,42 @@ fn fam_weight(p: Prop, f: &Family) -> u32 {
     }
 }
 
+/// Restrictions for the interpreter engines (None = no restriction).
+#[derive(Clone, Default)]
+pub struct Limits {
+    pub families: Option<Vec<usize>>,
+    pub variants: Option<Vec<String>>,
+    pub max_len: Option<usize>,
+    pub max_variants: Option<usize>,
+}
+
 pub fn plan(reg: &Registry, prop: Prop, rng: &mut Prng) -> Plan {
+    plan_limited(reg, prop, rng, &Limits::default())
+}
+
+pub fn plan_limited(reg: &Registry, prop: Prop, rng: &mut Prng, lim: &Limits) -> Plan {
+    let mut p = plan_inner(reg, prop, rng, lim);
+    if let Some(m) = lim.max_len {
+        p.len = p.len.min(m);
+    }
+    p
+}
+
+fn plan_inner(reg: &Registry, prop: Prop, rng: &mut Prng, lim: &Limits) -> Plan {
     let nf = match prop {
         Prop::C03 => rng.range(1, 3),
         _ => rng.range(1, 4),
     } as usize;
-    let w: Vec<u32> = reg.families.iter().map(|f| fam_weight(prop, f)).collect();
+    let w: Vec<u32> = reg
+        .families
+        .iter()
+        .enumerate()
+        .map(|(i, f)| match &lim.families {
+            Some(a) if !a.contains(&i) => 0,
+            _ => fam_weight(prop, f),
+        })
+        .collect();
+    let nf = nf.min(w.iter().filter(|&&x| x > 0).count()).max(1);
     let mut fams: Vec<usize> = Vec::new();
     while fams.len() < nf {
         let f = rng.weighted(&w);
@@ -139,6 +169,21 @@ pub fn plan(reg: &Registry, prop: Prop, rng: &mut Prng) -> Plan {
                 }
             }
             vs.sort();
+        }
+        if let Some(allowed) = &lim.variants {
+            let keep: Vec<usize> = (0..nv).filter(|&i| allowed.iter().any(|a| a == fam.variants[i].variant)).collect();
+            if !keep.is_empty() {
+                vs.retain(|i| keep.contains(i));
+                if vs.is_empty() {
+                    vs.push(keep[0]);
+                }
+                if prop == Prop::C03 && vs.len() < 2 && keep.len() >= 2 {
+                    vs = keep.clone();
+                }
+            }
+        }
+        if let Some(m) = lim.max_variants {
+            vs.truncate(m.max(1));
         }
         if vs.iter().any(|&i| reg.types[fam.variants[i].both].detect) {
             any_detect = true;
@@ -328,10 +373,12 @@ impl Gen {
                     let c: Vec<usize> =
                         (0..n as usize).filter(|&i| w.reg.types[w.anchors.entries[i].ty].family == f).collect();
                     if !c.is_empty() {
-                        return Op::Anchor { idx: *rng.pick(&c) as u32 };
+                        let e = &w.anchors.entries[*rng.pick(&c)];
+                        return Op::Anchor { ty: e.ty, dir: e.dir };
                     }
                 }
-                Op::Anchor { idx: rng.below(n) as u32 }
+                let e = &w.anchors.entries[rng.below(n) as usize];
+                Op::Anchor { ty: e.ty, dir: e.dir }
             }
             K_EPOCH => Op::EpochFlip { mask: if rng.chance(3, 4) { !w.mask } else { w.mask } },
             K_REPEAT => {
